@@ -213,6 +213,16 @@ def rule_kept_in_place(check):
             guard_keep = "guard" in a_ and "Keep" in hir.describe(a_["guard"])
             if not keeps and check.prop != "C01":
                 continue  # evaluation order is C01's business
+            if not keeps and "Bin" in vs_ and check.prop == "C01":
+                # the same question as in the hoisting branch above, asked of an arm that leaves the binary
+                # operand where it is by itself (`Expr::Bin(b) if b.op == Add => {}`): it may only do so for
+                # sums it has tested to be sums of literals
+                g_ = a_.get("guard")
+                lit_test = g_ is not None and any(hir.is_call(z) and "lit" in ((hir.callee_name(z) or z.get("method") or "").lower()) for z in hir.walk(g_))
+                check.expect(lit_test, R, R + "/stays/Bin/only-literal-sums", hir.loc(a_["body"]), "a binary operand stays in place only when it is tested to be a sum of literals", "a binary operand is left in place under [%s] whatever its operands are: with the plus operator disabled `m(f() + g(), h())` evaluates h() - hoisted into a temporary - before f() + g(), and the hook is not told about that argument" % (hir.describe(g_)[:120] if g_ is not None else "no condition"))
+                vs_ = vs_ - {"Bin"}
+                if not vs_:
+                    continue
             if not keeps:
                 # left where it is and not reported at all (EFFECT, C03, judges the missing argument): for
                 # the order of evaluation only kinds whose evaluation cannot be observed may stay behind
@@ -444,6 +454,11 @@ def rule_call_signature(check):
     fl_ = prog.flat(g, 2)
     fe = [(h, n) for h in fl_ for n in hir.calls_in(h.body, name="for_each") if any(hir.is_call(m) and (hir.callee_name(m) or "") == "replace_expressions_in_expr_or_spread" for a_ in hir.call_args(n)[1:] for m in hir.walk(a_))]
     fe = [(h, n) for h, n in fe if h is g or (h.name or "") != "replace_expressions_in_expr"]
+    # ... or a plain `for x in <args>.iter_mut() { .. }`
+    floops = [(h, m_) for h in fl_ for m_ in h.nodes() if m_.get("k") == "Match" and m_.get("source", "").startswith("ForLoopDesugar") and hir.is_call(hir.peel(m_["scrut"])) and (hir.callee_name(hir.peel(m_["scrut"])) or "") == "into_iter" and any(hir.is_call(z) and (hir.callee_name(z) or "") == "replace_expressions_in_expr_or_spread" for z in hir.walk(m_))]
+    floops = [(h, m_) for h, m_ in floops if h is g or (h.name or "") != "replace_expressions_in_expr"]
+    if not fe and len(floops) == 1:
+        fe = [(floops[0][0], {"k": "Call", "args": [hir.call_args(hir.peel(floops[0][1]["scrut"]))[0]], "f": {"k": "Path"}, "sp": floops[0][1]["sp"]})]
     ok = len(fe) == 1
     chain = []
     if ok:
@@ -469,11 +484,44 @@ def rule_call_signature(check):
             th = (_ctor_name(hir.peel(n["then"])) or "").split("::")[-1]
             el = (_ctor_name(hir.peel(n["else"])) or "").split("::")[-1] if "else" in n else ""
             ok = th == "Yes" and el == "No"
+    def _str_of(e_):
+        e_ = hir.peel(e_)
+        v_ = hir.lit_value(e_) if e_.get("k") == "Lit" else None
+        if isinstance(v_, str):
+            return v_
+        dp_ = hir.def_path_of(e_)
+        if dp_:
+            try:
+                return prog.const_str(dp_)
+            except AnchorMissing:
+                return None
+        return None
+
+    if not ok:
+        # `match name { "apply" | APPLY_METHOD_NAME => Yes, _ => No }`
+        for m_ in [n for n in hir.walk(g.body) if n.get("k") == "Match" and not n.get("source", "").startswith(("ForLoop", "TryDesugar"))]:
+            arms = m_.get("arms", [])
+            if len(arms) != 2:
+                continue
+            vals = [(_ctor_name(hir.peel(a_["body"])) or "").split("::")[-1] for a_ in arms]
+            p0 = arms[0]["pat"]
+            while p0.get("k") in ("Ref", "Deref", "Box"):
+                p0 = p0["inner"]
+            lit0 = None
+            if p0.get("k") in ("Lit", "Expr", "Const", "Path"):
+                lit0 = _str_of(p0.get("e") or p0.get("expr") or p0)
+            if lit0 is None:
+                for x_ in hir.walk_pat(p0) if hasattr(hir, "walk_pat") else []:
+                    if isinstance(x_, dict) and (x_.get("k") in ("Lit",) or x_.get("res")):
+                        lit0 = lit0 or _str_of(x_.get("e") or x_)
+            wild = str(hir.pat_variant(arms[1]["pat"])) == "_"
+            if vals == ["Yes", "No"] and lit0 == "apply" and wild and "guard" not in arms[0]:
+                ok = True
     pn = [b for b in g.bindings().values() if b["name"] == "prop_name"]
     dflt = False
     if pn and pn[0]["origin"][1] is not None:
         init = hir.peel(pn[0]["origin"][1])
-        dflt = hir.is_call(init) and (hir.callee_name(init) or init.get("method")) == "unwrap_or" and hir.lit_value(hir.call_args(init)[1]) == "call"
+        dflt = hir.is_call(init) and (hir.callee_name(init) or init.get("method")) == "unwrap_or" and _str_of(hir.call_args(init)[1]) == "call"
     if not pn:
         # the name is a plain &str parameter: there is no default here, every caller says which one
         # (checked by the call-or-apply flow below)
@@ -593,7 +641,27 @@ def rule_call_signature(check):
         atoms = gate.atoms_at(f_, n)
         ok_ = f_ is rc and any(a[0] == "variant" and a[3] is True and str(a[2]).split("::")[-1] == "Some" and (a[1] or "").split("#")[0] == "ident_callee_expr" for a in atoms)
         check.expect(ok_, R, "%s/callee-write/%s" % (R, f_.name), hir.loc(n), "the callee of the cloned call is replaced only when a callee temporary is supplied", "%s overwrites the callee of a call outside the reviewed member path: the emitted call is no longer the original call" % f_.name)
-    check.floor(R, "callee writes", len(writers), 1)
+    # the same decision written as a value: `CallExpr { callee: match ident_callee_expr { Some(i) => <member>,
+    # None => call.callee.clone() }, .. }`
+    built = []
+    for n in rc.nodes():
+        if n.get("k") == "Struct" and (n["res"].get("path") or "").endswith("swc_ecma_ast::CallExpr"):
+            for fl in n["fields"]:
+                if fl["name"] == "callee":
+                    built.append((n, fl["e"]))
+    for n, e_ in built:
+        os_ = pv.origins(rc, e_)
+        fresh = [(r, p_) for r, p_ in os_ if r[0] == "ctor"]
+        kept = [(r, p_) for r, p_ in os_ if r[0] == "param" and r[2] == 0 and "callee" in p_]
+        other = [(r, p_) for r, p_ in os_ if (r, p_) not in fresh and (r, p_) not in kept and r[0] not in ("residual",)]
+        under_some = True
+        for r, p_ in fresh:
+            node_ = prog.by_def[r[2]].by_id(r[3]) if len(r) > 3 and r[2] in prog.by_def else None
+            at_ = gate.atoms_at(rc, node_) if node_ is not None and r[2] == rc.def_path else []
+            under_some = under_some and any(a[0] == "variant" and a[3] is True and str(a[2]).split("::")[-1] == "Some" and (a[1] or "").split("#")[0] == "ident_callee_expr" for a in at_)
+        ok_ = bool(kept) and bool(fresh) and under_some and not other
+        check.expect(ok_, R, "%s/callee-write/%s" % (R, rc.name), hir.loc(n), "the callee of the emitted call is the member path when a callee temporary is supplied, the original callee otherwise", "%s builds the emitted call with a callee that is not `the supplied temporary's member path, else the original callee` (%s)" % (rc.name, sorted(origin_str(o) for o in os_)))
+    check.floor(R, "callee writes", len(writers) + len(built), 1)
     s = prog.fn("call_expr_transform::replace_call_spread_if_csi_method_with_member")
     al = [lid for lid, b in s.bindings().items() if b["name"] == "arguments" and b["origin"][0] == "let"]
     evs = [n for n in s.nodes() if hir.is_call(n) and any((hir.local_of(x) or (None,))[0] == al[0] for x in hir.call_args(n))] if al else []
@@ -701,6 +769,35 @@ ORDER_TABLE = {"BinExpr": ["left", "right"], "AssignExpr": ["left", "right"], "M
 REORDER = {"rev", "reverse", "sort", "sort_by", "sort_by_key", "sort_unstable", "sort_unstable_by", "swap", "swap_remove", "rotate_left", "rotate_right", "dedup", "retain", "remove", "pop", "truncate", "drain", "split_off", "insert"}
 
 
+def _full_forward_drain(f, n):
+    """`v.drain(..)` over the full range whose iterator is consumed completely and in order (map / inspect /
+    enumerate, then collect / for_each / extend / a for loop)"""
+    a = hir.call_args(n)
+    if len(a) < 2 or "RangeFull" not in (hir.peel(a[1]).get("ty") or ""):
+        return False
+    cur = n
+    for _ in range(8):
+        par = f.parent(cur)
+        while par is not None and par.get("k") in ("DropTemps", "Use", "AddrOf"):
+            cur, par = par, f.parent(par)
+        if par is None:
+            return False
+        if par.get("k") == "MethodCall" and hir.peel(par["recv"]) is hir.peel(cur):
+            if par["method"] in ("map", "inspect", "enumerate", "by_ref", "into_iter"):
+                cur = par
+                continue
+            return par["method"] in ("collect", "for_each", "count")
+        if hir.is_call(par) and (hir.callee_name(par) or "") in ("into_iter", "extend", "from_iter"):
+            cur = par
+            if (hir.callee_name(par) or "") == "into_iter":
+                continue
+            return True
+        if par.get("k") == "Match" and par.get("source", "").startswith("ForLoop"):
+            return True
+        return False
+    return False
+
+
 def rule_order(check):
     R = "ORDER"
     check.rule(R, "evaluation order is the order of pushes into `assignations`: no reordering operation on operand collections (the one reviewed exception inserts the this-argument at index 0); operands of one node are hoisted in ECMAScript order (left before right, object before property, callee before arguments); operand collections are iterated forwards")
@@ -720,7 +817,9 @@ def rule_order(check):
             n_scanned += 1
             if name in REORDER:
                 key = "%s/reorder/%s/%s" % (R, f.name, name)
-                if name == "insert" and hir.lit_value(hir.call_args(n)[1]) == 0 and _emitted_call_args(f, n["recv"]):
+                if name == "drain" and _full_forward_drain(f, n):
+                    check.ok(R, key, hir.loc(n), "drain(..) of the whole collection, consumed front to back by element-wise adapters: same elements, same order")
+                elif name == "insert" and hir.lit_value(hir.call_args(n)[1]) == 0 and _emitted_call_args(f, n["recv"]):
                     check.ok(R, key, hir.loc(n), "reviewed: the this-argument is inserted at index 0 of the emitted .call (CALL-SIGNATURE checks what is inserted)")
                 else:
                     check.bad(R, key, hir.loc(n), "%s() on an operand collection changes the order in which operands are evaluated or reported" % name)
@@ -1107,7 +1206,7 @@ def rule_paren_wrap(check):
         check.expect(ok, R, "%s/%s" % (R, f.name), hir.loc(n), "Paren(Seq(..))", "a comma sequence is built without enclosing parentheses in %s (%s)" % (f.name, chain))
     # every returned Seq-containing expr is the Paren
     oc = prog.fn("OptChainTransform::to_dd_cond_expr")
-    conds = [n for n in hir.walk(oc.body) if n.get("k") == "Struct" and (n["res"].get("path") or "").endswith("CondExpr")]
+    conds = [n for g_ in prog.flat(oc, 2) for n in hir.walk(g_.body) if n.get("k") == "Struct" and (n["res"].get("path") or "").endswith("CondExpr")]
     pushes = [n for n in hir.calls_in(oc.body, name="push")]
     ok = len(conds) == 1 and any(any(hir.local_of(x) for x in hir.walk(hir.call_args(p)[1])) and (hir.place(hir.call_args(p)[0]) or "").endswith(".assignments") for p in pushes)
     check.expect(ok, R, R + "/cond-in-seq", hir.loc(oc.rec), "the null-guard conditional is appended to the parenthesised sequence", "the injected conditional is not part of the parenthesised sequence")
@@ -1148,10 +1247,10 @@ def rule_optchain_lowering(check):
     check.rule(R, "an optional chain is lowered to `(t = <optional part>, t == null ? undefined : <rest>)`: loose equality with the null literal, `undefined` when short-circuited, the lowered chain otherwise, evaluated after the assignments")
     prog = check.prog
     pv = Prov(prog)
-    f = prog.fn("OptChainTransform::to_dd_cond_expr")
-    conds = [n for n in hir.walk(f.body) if n.get("k") == "Struct" and (n["res"].get("path") or "").endswith("CondExpr")]
-    check.floor(R, "CondExpr constructions", len(conds), 1)
-    for n in conds:
+    f0 = prog.fn("OptChainTransform::to_dd_cond_expr")
+    conds_g = [(g, n) for g in prog.flat(f0, 2) for n in hir.walk(g.body) if n.get("k") == "Struct" and (n["res"].get("path") or "").endswith("CondExpr")]
+    check.floor(R, "CondExpr constructions", len(conds_g), 1)
+    for f, n in conds_g:
         flds = {x["name"]: x["e"] for x in n["fields"]}
         # test
         to = pv.origins(f, flds["test"])
@@ -1183,7 +1282,20 @@ def rule_optchain_lowering(check):
                             und = True
         check.expect(und, R, R + "/cons", hir.loc(n), "short-circuit value = undefined", "the short-circuited value is not the identifier `undefined`")
         ao = pv.origins(f, flds["alt"])
-        check.expect(all(r[0] == "param" and r[2] == 0 for r, p in ao) and bool(ao), R, R + "/alt", hir.loc(n), "otherwise: the lowered chain", "the non-null branch is not the lowered chain expression")
+        if f is not f0:
+            # built by a helper: what the lowering hands to that parameter
+            lifted = set()
+            for r, p in ao:
+                if r[0] == "param" and r[1] == f.def_path:
+                    for h_ in prog.flat(f0, 2):
+                        for c_ in hir.calls_in(h_.body):
+                            if prog.resolve_local(c_) is f and len(hir.call_args(c_)) > r[2]:
+                                lifted |= {(r2, tuple(p2) + tuple(p)) for r2, p2 in pv.origins(h_, hir.call_args(c_)[r[2]])}
+                else:
+                    lifted.add((r, p))
+            ao = lifted
+        check.expect(all(r[0] == "param" and r[1] == f0.def_path and r[2] == 0 for r, p in ao) and bool(ao), R, R + "/alt", hir.loc(n), "otherwise: the lowered chain", "the non-null branch is not the lowered chain expression")
+    f = f0
     # the lowering is discarded (not_modified) only when nothing was hoisted: the visitor rewrites the
     # chain in place, so a discarded result with assignments would leave references to unassigned temporaries
     from . import boolform as BF
@@ -1200,10 +1312,33 @@ def rule_optchain_lowering(check):
                 return a if nm == "is_none" else BF.neg(a)
         return None
 
+    def _ident_pat(c):
+        """`let Some(t) = visitor.new_ident.take() else ..` / `match visitor.new_ident {..}`: the same test as is_some()"""
+        if c.get("t") != "pat" or c.get("scrut") is None:
+            return None
+        sc = hir.peel_transparent(c["scrut"])
+        while sc.get("k") == "MethodCall" and sc["method"] in ("take", "as_ref", "as_mut", "clone", "as_deref", "as_deref_mut"):
+            sc = hir.peel_transparent(sc["recv"])
+        if not (hir.place(sc) or "").endswith(".new_ident"):
+            return None
+        v = str(hir.pat_variant(c["pat"])).split("::")[-1]
+        if v not in ("Some", "None"):
+            return None
+        a = BF.atom("no-ident")
+        fml = BF.neg(a) if v == "Some" else a
+        return fml if c["v"] else BF.neg(fml)
+
+    def _prem(fn_, node):
+        out = []
+        for c in fn_.conds_at(node):
+            ip = _ident_pat(c)
+            out.append(ip if ip is not None else BF.from_cond(fn_, c, _atomize, prog))
+        return [x for x in out if x != BF.TRUE]
+
     nms = [x for x in hir.calls_in(f.body, name="not_modified")]
     check.floor(R, "not_modified exits of the lowering", len(nms), 1)
     for x in nms:
-        prem = BF.from_conds(f, f.conds_at(x), _atomize, prog)
+        prem = _prem(f, x)
         ok = BF.entails(prem, BF.disj([BF.atom("no-assignments"), BF.atom("no-ident")]))
         check.expect(ok, R, R + "/discard-only-if-nothing-hoisted", hir.loc(x), "not_modified only if no assignment was made or no temporary was created", "the lowering can be discarded (not_modified) although assignments were hoisted: the chain was already rewritten in place and refers to temporaries that are never assigned")
     # inside the visitor: once the temporary of the lowering is recorded (new_ident = Some(..)), the
@@ -1266,61 +1401,170 @@ def rule_optchain_lowering(check):
         while y.get("k") == "MethodCall":
             chain.append(y["method"])
             y = hir.peel(y["recv"])
-        ok = chain == ["collect", "map", "iter_mut"] and (hir.place(y) or "").endswith(".assignments")
+        # every assignment, front to back: iter_mut().map(take) / drain(..).map(Box::new) / into_iter().map(..)
+        full_drain = chain[-1:] == ["drain"] and any(x.get("k") == "MethodCall" and x["method"] == "drain" and _full_forward_drain(f, x) for x in hir.walk(ex))
+        ok = chain[:2] == ["collect", "map"] and (chain[2:] in (["iter_mut"], ["into_iter"]) or (chain[2:] == ["drain"] and full_drain)) and (hir.place(y) or "").endswith(".assignments")
     check.expect(ok, R, R + "/sequence", hir.loc(f.rec), "sequence = assignments in order, conditional last", "the lowered sequence is not [assignments.., conditional] in order")
     # guards: nothing is lowered unless an optional part was extracted
     nm = [x for x in hir.calls_in(f.body, name="not_modified")]
     for x in nm:
         atoms = gate.atoms_at(f, x)
-        ok = any(a[0] == "compound" for a in atoms) or any(a[0] == "call" and a[1] in ("is_empty", "is_none") and a[4] is True for a in atoms)
+        ok = any(a[0] == "compound" for a in atoms) or any(a[0] == "call" and a[1] in ("is_empty", "is_none") and a[4] is True for a in atoms) or any(_ident_pat(c) is not None for c in f.conds_at(x))
         check.expect(ok, R, R + "/not-modified", hir.loc(x), "not modified when nothing was extracted", "to_dd_cond_expr reports not-modified under other conditions")
 
 
 def rule_fresh_temp(check):
     """FRESH-TEMP: one temporary per captured operand position."""
     R = "FRESH-TEMP"
-    check.rule(R, "every identifier returned by get_temporal_ident_used_in_assignation is the identifier of a create_assign_expression(self.next_ident(), operand, ..) call made on that very path, whose assignment is pushed once to `assignations`: two operand positions never share a temporary (a shared capture is read at the wrong time and erasure cannot tell the positions apart)")
+    check.rule(R, "every identifier returned by get_temporal_ident_used_in_assignation is an Ident built on that very path (in the function or in a helper it calls) whose name comes from get_dd_local_variable_name(self.next_ident(), ..), and exactly one assignment `that identifier = <capture of the operand>` is pushed to `assignations` on that path: two operand positions never share a temporary (a shared capture is read at the wrong time and erasure cannot tell the positions apart)")
     prog = check.prog
     g = prog.fn("IdentProvider::get_temporal_ident_used_in_assignation")
-    pv = Prov(prog, opaque={"create_assign_expression", "next_ident"})
+    pv = Prov(prog, opaque={"get_dd_local_variable_name", "next_ident", "create_assign_right_operand_expression"})
     rets = return_exprs(g.body)
     somes = [r for r in rets if not (hir.peel(r).get("k") == "Path" and (hir.peel(r)["res"].get("ctor_path") or "").split("::")[-1] == "None")]
     check.floor(R, "Some(..) returns of the temp helper", len(somes), 1)
-    creates = list(hir.calls_in(g.body, name="create_assign_expression"))
+    opnd_idx = [k for k, prm in enumerate(g.rec["params"]) if any(b_["name"] == "operand" for b_ in hir.pat_bindings(prm["pat"]))]
+
+    def _node(root):
+        f_ = prog.by_def.get(root[2])
+        try:
+            return f_, (f_.by_id(root[3]) if f_ else None)
+        except KeyError:
+            return f_, None
+
+    def _site_conds(defp, node):
+        """path conditions, in g, under which the node (of g or of a helper g calls) runs"""
+        if defp == g.def_path:
+            return [x for x in g.conds_at(node) if x["t"] != "closure"]
+        for c_ in hir.calls_in(g.body):
+            h_ = prog.resolve_local(c_)
+            if h_ is not None and defp in {x.def_path for x in prog.flat(h_, 3)}:
+                return [x for x in g.conds_at(c_) if x["t"] != "closure"]
+        return None
+
+    def _key(root):
+        return (root[0], root[1], root[2], root[3])
+
     for i, r in enumerate(somes):
+        rconds = [x for x in g.conds_at(r) if x["t"] != "closure"]
         os_ = pv._proj(pv.origins(g, r), ("Some", "0")) or pv.origins(g, r)
         os_ = {o for o in os_ if o[0][0] != "ctor" or o[0][1].split("::")[-1] != "Some"} or os_
-        bad = []
-        for root, proj in os_:
-            if root[0] == "call" and root[1].split("::")[-1] == "create_assign_expression":
-                continue
-            bad.append(origin_str((root, proj)))
-        rconds = [x for x in g.conds_at(r) if x["t"] != "closure"]
-        same_path = [c for c in creates if [x for x in g.conds_at(c) if x["t"] != "closure"] == rconds]
-        fresh = False
-        pushed = 0
-        for c in same_path:
-            a = hir.call_args(c)
-            idx = pv.origins(g, a[1]) if len(a) > 1 else set()
-            fresh = fresh or (bool(idx) and all(rt[0] == "call" and rt[1].split("::")[-1] == "next_ident" for rt, _ in idx))
-            opnd = hir.place(a[2]) if len(a) > 2 else None
-            fresh = fresh and opnd is not None and opnd.split("#")[0] == "operand"
-        for psh in hir.calls_in(g.body, name="push"):
-            if (hir.place(hir.call_args(psh)[0]) or "").split("#")[0] == "assignations" and [x for x in g.conds_at(psh) if x["t"] != "closure"] == rconds:
-                po = pv.origins(g, hir.call_args(psh)[1])
-                if any(rt[0] == "call" and rt[1].split("::")[-1] == "create_assign_expression" for rt, _ in pv._proj(po, ("0",)) | po | _ctor_args(pv, g, po)):
-                    pushed += 1
-        ok = not bad and bool(os_) and len(same_path) == 1 and fresh and pushed == 1
         why = []
-        if bad or not os_:
+        idents = [o[0] for o in os_ if o[0][0] == "ctor" and o[0][1].split("::")[-1] == "Ident"]
+        bad = [origin_str(o) for o in os_ if o[0] not in idents]
+        if bad or not idents:
             why.append("it returns %s" % (", ".join(sorted(bad)) or "an identifier of unknown origin"))
-        if len(same_path) != 1:
-            why.append("%d create_assign_expression calls on the returning path" % len(same_path))
-        elif not fresh:
-            why.append("the name index is not self.next_ident() or the captured value is not the operand")
+        fresh = bool(idents)
+        for root in idents:
+            h_, n_ = _node(root)
+            if n_ is None or n_.get("k") != "Struct":
+                fresh = False
+                continue
+            sym = [fl["e"] for fl in n_["fields"] if fl["name"] == "sym"]
+            so = pv.origins(h_, sym[0], root[4]) if sym else set()
+            namers = [o[0] for o in so if o[0][0] == "call" and o[0][1].split("::")[-1] == "get_dd_local_variable_name"]
+            if not namers or len(namers) != len({o[0] for o in so if o[0][0] != "residual"}):
+                fresh = False
+                continue
+            for nm in namers:
+                hn, cn = _node(nm)
+                a_ = hir.call_args(cn) if cn is not None else []
+                io = pv.origins(hn, a_[0], nm[4]) if a_ else set()
+                ctr = [o[0] for o in io if o[0][0] == "call" and o[0][1].split("::")[-1] == "next_ident"]
+                if not ctr or len(ctr) != len(io):
+                    fresh = False
+                    continue
+                for c_ in ctr:
+                    hc, cc = _node(c_)
+                    if cc is None or _site_conds(c_[2], cc) != rconds:
+                        fresh = False
+        if idents and not fresh:
+            why.append("the name of the returned identifier is not get_dd_local_variable_name(self.next_ident(), ..) drawn on the returning path")
+        pushed = 0
+        captured_ok = True
+        for psh in hir.calls_in(g.body, name="push"):
+            if (hir.place(hir.call_args(psh)[0]) or "").split("#")[0] != "assignations" or [x for x in g.conds_at(psh) if x["t"] != "closure"] != rconds:
+                continue
+            po = pv.origins(g, hir.call_args(psh)[1])
+            cand = po | pv._proj(po, ("0",)) | _ctor_args(pv, g, po)
+            for o in cand:
+                if not (o[0][0] == "ctor" and o[0][1].split("::")[-1] == "AssignExpr"):
+                    continue
+                ha, na = _node(o[0])
+                if na is None or na.get("k") != "Struct":
+                    continue
+                left = [fl["e"] for fl in na["fields"] if fl["name"] == "left"]
+                right = [fl["e"] for fl in na["fields"] if fl["name"] == "right"]
+                # the identifier assigned to: the innermost expression of `left` that is an Ident value
+                lids = set()
+                for x in hir.walk(left[0]) if left else []:
+                    if (x.get("ty") or "").endswith("swc_ecma_ast::Ident") or (x.get("aty") or "").endswith("swc_ecma_ast::Ident"):
+                        lids |= {_key(o2[0]) for o2 in pv.origins(ha, x, o[0][4]) if o2[0][0] == "ctor" and o2[0][1].split("::")[-1] == "Ident"}
+                if lids and lids == {_key(x) for x in idents}:
+                    pushed += 1
+                    # what is captured: the operand of this call
+                    caps = [x for x in hir.walk(right[0]) if hir.is_call(x) and (hir.callee_name(x) or x.get("method")) == "create_assign_right_operand_expression"] if right else []
+                    for cp in caps:
+                        co = pv.origins(ha, hir.call_args(cp)[1], o[0][4])
+                        if not (co and all(o3[0][0] == "param" and o3[0][1] == g.def_path and o3[0][2] in opnd_idx for o3 in co)):
+                            captured_ok = False
+                    if not caps:
+                        captured_ok = False
         if pushed != 1:
             why.append("its assignment is pushed %d times" % pushed)
+        elif not captured_ok:
+            why.append("the captured value is not the operand")
+        ok = not why
         check.expect(ok, R, "%s/return-%d" % (R, i) if i else R + "/return", hir.loc(r), "returns the identifier of the one fresh assignment pushed on this path", "get_temporal_ident_used_in_assignation can hand out a temporary that is not fresh for this operand position (%s): operands share a capture" % "; ".join(why))
+
+
+def temp_ident_chain(prog):
+    """Where the identifiers handed out by get_temporal_ident_used_in_assignation come from, read off the
+    provenance of its Some(..) returns (through whatever helpers it is split into):
+    [{ret, conds, idents: [(fn, Ident struct node, root)], namers: [(fn, call node, root)], counters: [(fn, call node, root)], other: [origin strings]}]"""
+    g = prog.fn("IdentProvider::get_temporal_ident_used_in_assignation")
+    pv = Prov(prog, opaque={"get_dd_local_variable_name", "next_ident", "create_assign_right_operand_expression"})
+    out = []
+
+    def _node(root):
+        f_ = prog.by_def.get(root[2])
+        try:
+            return f_, (f_.by_id(root[3]) if f_ else None)
+        except KeyError:
+            return f_, None
+
+    for r in return_exprs(g.body):
+        if hir.peel(r).get("k") == "Path" and (hir.peel(r)["res"].get("ctor_path") or "").split("::")[-1] == "None":
+            continue
+        os_ = pv._proj(pv.origins(g, r), ("Some", "0")) or pv.origins(g, r)
+        os_ = {o for o in os_ if o[0][0] != "ctor" or o[0][1].split("::")[-1] != "Some"} or os_
+        rec = {"ret": r, "conds": [x for x in g.conds_at(r) if x["t"] != "closure"], "idents": [], "namers": [], "counters": [], "other": [], "g": g, "pv": pv}
+        for o in os_:
+            root = o[0]
+            if not (root[0] == "ctor" and root[1].split("::")[-1] == "Ident"):
+                rec["other"].append(origin_str(o))
+                continue
+            h_, n_ = _node(root)
+            if n_ is None or n_.get("k") != "Struct":
+                rec["other"].append(origin_str(o))
+                continue
+            rec["idents"].append((h_, n_, root))
+            sym = [fl["e"] for fl in n_["fields"] if fl["name"] == "sym"]
+            for o2 in (pv.origins(h_, sym[0], root[4]) if sym else set()):
+                if o2[0][0] == "call" and o2[0][1].split("::")[-1] == "get_dd_local_variable_name":
+                    hn, cn = _node(o2[0])
+                    rec["namers"].append((hn, cn, o2[0]))
+                    a_ = hir.call_args(cn) if cn is not None else []
+                    for o3 in (pv.origins(hn, a_[0], o2[0][4]) if a_ else set()):
+                        if o3[0][0] == "call" and o3[0][1].split("::")[-1] == "next_ident":
+                            hc, cc = _node(o3[0])
+                            rec["counters"].append((hc, cc, o3[0]))
+                        else:
+                            rec["other"].append("index " + origin_str(o3))
+                elif o2[0][0] != "residual":
+                    rec["other"].append("name " + origin_str(o2))
+        out.append(rec)
+    return out
 
 
 def _ctor_args(pv, g, origins):
